@@ -102,8 +102,9 @@ type Gen struct {
 }
 
 type FrameInfo struct {
-	mods  map[*ssa.Function]map[string]bool
-	sorts map[string]string
+	mods     map[*ssa.Function]map[string]bool
+	restores map[*ssa.Function]map[string]bool
+	sorts    map[string]string
 	fb    *frameBuilder
 }
 
@@ -185,7 +186,7 @@ func (g *Gen) oblige(kind, detail, tag string, props []string, safety bool, cond
 	o := &Obl{Fn: g.key, Name: name, Kind: kind, Tag: tag, Props: props, Safety: safety, blk: g.curBlk, pos: g.curPos, cond: cond, SrcPos: g.P.posString(pos), g: g}
 	g.obls = append(g.obls, o)
 	// later code may rely on it (terminal obligations at a return are independent of each other)
-	if kind != "post" && kind != "frame" {
+	if kind != "post" && kind != "frame" && kind != "restore" {
 		g.guard(cond)
 	}
 	return o
